@@ -527,6 +527,19 @@ impl<'tcx> Cx<'tcx> {
                 }
                 o(vec![("k", s("agg")), ("kind", s("adt")), ("variant", n(0)), ("elems", J::A(v))])
             }
+            ty::Adt(def, _) if def.is_enum() && def.variants().iter().all(|v| v.fields.is_empty()) && size > 0 => {
+                // field-less enum: the tag is stored directly (discriminant value)
+                match self.read_bytes(alloc, off, size) {
+                    Some(b) => {
+                        let mut v: u128 = 0;
+                        for (i, x) in b.iter().enumerate() {
+                            v |= (*x as u128) << (8 * i);
+                        }
+                        Self::scalar_int_json(v, size)
+                    }
+                    None => o(vec![("k", s("unsupported")), ("why", s("oob"))]),
+                }
+            }
             ty::Ref(_, t, _) | ty::RawPtr(t, _) => {
                 let fat = matches!(t.kind(), ty::Str | ty::Slice(_));
                 match self.ptr_target(alloc, off) {
